@@ -193,21 +193,18 @@ theorem C17_pipe_late_completion_closed (c : Cfg) (hpos : 0 < c.size) (as : List
      refine ⟨h0, rfl, ?_⟩
      simp [h0] at hg ⊢; omega)
 
-/- FULL PROPERTY (not a theorem of the code that exists): after Session.Close, once every connect in flight has
-   returned, no socket is open and no pool holds a connection, for every schedule before, around and after the Close.
-   The unchanged code violates it when an addHost (UP event, ring refresh, reconnect ticker) runs after Session.Close's
-   policyConnPool.Close() and before its s.cancel(): addHost does not know the session is closing, registers a new
-   pool and fills it; nothing closes that pool (`C17_cex_addhost_in_close_window`). -/
 open Pipe C17Pipe in
-/-- after Session.Close, once every connect in flight has returned, no socket is open and no pool holds a
-    connection — for every schedule before, around and after the Close in which no addHost ran between Session.Close's
-    policyConnPool.Close() and its s.cancel() -/
-theorem C17_pipe_session_close_leaves_nothing_partial (c : Cfg) (hpos : 0 < c.size) (as : List Act) (h : Host)
-    (hr : (Host.init c).run as = some h) (hsc : h.sessClosed = true) (hla : h.lateAdd = false)
+/-- **Session.Close leaves nothing** (FULL: every schedule before, around and after the Close — addHost, removal, Pick,
+    connects completing or failing anywhere, also between Session.Close's policyConnPool.Close() and its s.cancel()):
+    after Session.Close, once every connect in flight has returned, no socket is open, no pool holds a connection and
+    no pool is registered.  (Before the fix commit for KF-C17-3 an addHost inside Session.Close registered and filled a
+    pool nobody closed: `C17_old_addhost_in_close_window_leaks`.) -/
+theorem C17_pipe_session_close_leaves_nothing (c : Cfg) (hpos : 0 < c.size) (as : List Act) (h : Host)
+    (hr : (Host.init c).run as = some h) (hsc : h.sessClosed = true)
     (hq : ∀ p ∈ h.pools, p.att = []) :
     h.opened = 0 ∧ h.closedConns = 0 ∧ h.cur = none := by
   have ⟨hi, _⟩ := hinv_run as _ h (hinv_init c hpos) hr
-  have hcur := hi.sess hsc hla
+  have hcur := hi.sess hsc
   have hall : ∀ p ∈ h.pools, p.closed = true ∧ p.conns = [] ∧ p.opened = 0 := by
     intro p hp
     rcases mem_pools h p hp with hc | hold
@@ -228,16 +225,38 @@ theorem C17_pipe_session_close_leaves_nothing_partial (c : Cfg) (hpos : 0 < c.si
     obtain ⟨p, hp, rfl⟩ := List.mem_map.mp hx
     simp [(hall p hp).2.1]
 
-/-- counterexample to the full property on the code that exists: size 2; the pool is full; Session.Close closes the
-    pools; an addHost arrives before the session context is cancelled: a new pool is registered and filled (attempts 3
-    and 4 complete); the context is cancelled — Session.Close has returned, every connect has returned, and two
-    connections are open in a pool that nothing will close -/
-theorem C17_cex_addhost_in_close_window :
-    ∃ h, (Pipe.Host.init ⟨2, false, 0⟩).run
+open Pipe C17Pipe in
+/-- from policyConnPool.Close() on — in EVERY reachable state, connects still in flight or not — no pool is registered
+    for the host and every pool object that exists is closed: nothing can be appended to any pool any more
+    (`C17_pipe_late_completion_closed`), whatever addHost / Pick / removal callers still arrive -/
+theorem C17_pipe_closed_session_registers_nothing (c : Cfg) (hpos : 0 < c.size) (as : List Act) (h : Host)
+    (hr : (Host.init c).run as = some h) (hsc : h.sessClosed = true) :
+    h.cur = none ∧ ∀ p ∈ h.pools, p.closed = true ∧ p.conns = [] := by
+  have ⟨hi, _⟩ := hinv_run as _ h (hinv_init c hpos) hr
+  have hcur := hi.sess hsc
+  refine ⟨hcur, ?_⟩
+  intro p hp
+  rcases mem_pools h p hp with hc | hold
+  · rw [hcur] at hc; simp at hc
+  · have ⟨inv, hcl⟩ := hi.old p hold
+    exact ⟨hcl, inv.closedEmpty hcl⟩
+
+/-- regression (the code BEFORE the fix commit for KF-C17-3, `Host.stepOld`: addHost does not look at `closed`): size 2;
+    the pool is full; Session.Close closes the pools; an addHost arrives before the session context is cancelled: a new
+    pool is registered and filled (attempts 3 and 4 complete); the context is cancelled — Session.Close has returned,
+    every connect has returned, and two connections are open in a pool that nothing will close -/
+theorem C17_old_addhost_in_close_window_leaks :
+    ∃ h, (Pipe.Host.init ⟨2, false, 0⟩).runOld
       [.ok 2, .ok 2, .ok 2, .stop, .sclose, .up, .ok 3, .ok 3, .ok 3, .ok 4, .ok 4, .ok 4, .stop, .scancel] = some h ∧
-      h.sessClosed = true ∧ h.cancelled = true ∧ h.lateAdd = true ∧ (∀ p ∈ h.pools, p.att = []) ∧
+      h.sessClosed = true ∧ h.cancelled = true ∧ (∀ p ∈ h.pools, p.att = []) ∧
       h.opened = 2 ∧ h.cur.map (·.conns) = some [3, 4] ∧ h.cur.map (·.closed) = some false := by
-  refine ⟨_, rfl, ?_, ?_, ?_, ?_, ?_, ?_, ?_⟩ <;> decide
+  refine ⟨_, rfl, ?_, ?_, ?_, ?_, ?_, ?_⟩ <;> decide
+
+/-- the code that exists on the same events: the addHost inside Session.Close does nothing (no connect 3 ever starts,
+    `.ok 3` is not enabled), nothing is registered, nothing is open -/
+example : ∃ h, (Pipe.Host.init ⟨2, false, 0⟩).run [.ok 2, .ok 2, .ok 2, .stop, .sclose, .up, .scancel, .up] = some h ∧
+    h.cur = none ∧ h.opened = 0 ∧ h.step (.ok 3) = none := by
+  refine ⟨_, rfl, ?_, ?_, ?_⟩ <;> decide
 
 /-- non-vacuity, and the schedule of the seeded change: size 2, keyspace configured; the second connection is
     dialled, gets SUPPORTED and READY and waits for the USE reply; the host is removed; the reply arrives -/
@@ -396,37 +415,41 @@ end C17
 namespace C17
 /-! ### refreshDebouncer with its broadcaster: every refreshNow() waiter is released
 
-FULL PROPERTY (not a theorem of the code that exists): for every schedule of refreshNow / debounce / stop calls and
-flusher steps, once stop() has been called every waiter ever handed a channel by refreshNow() is released (gets the
-result of a refresh or a closed channel) after at most three further steps of the flusher — so no goroutine sitting in
-Session.refreshRing outlives Session.Close.
+For every schedule of refreshNow / debounce / stop calls and flusher steps, once stop() has been called every waiter
+ever handed a channel by refreshNow() is released (gets the result of a refresh or a closed channel) after at most three
+further steps of the flusher — so no goroutine sitting in Session.refreshRing outlives Session.Close
+(`C17_waiters_released`, FULL).
 
-The unchanged code violates it for a refreshNow() that runs AFTER the flusher has returned (`late`): refreshNow does not
-look at `stopped`, creates a broadcaster nobody will ever stop and hands out a channel that is never written nor closed
-(`C17_cex_waiter_after_exit`). With that excluded it is a theorem (`C17_waiters_released_partial`); for the proposed
-repair (refreshNow returns a closed channel once `stopped`) it holds without the exclusion (`C17_waiters_released_fixed`). -/
-
-open Pool C17Deb in
-/-- **every waiter registered before the flusher returned is released**: in every state reachable under any schedule
-    (0.. waiters queued before / while a refresh runs, stop at any point, the select taking any ready case), once
-    `stopped` is set the flusher has at most three steps of its own left (refreshFn returns; the select takes the closed
-    quit channel; the critical section) after which it has exited and EVERY waiter registered so far is released —
-    provided no refreshNow() ran after the flusher had returned -/
-theorem C17_waiters_released_partial (as : List WAct) (d : WDeb) (hr : wrun WDeb.init as = some d)
-    (hs : d.stopped = true) (hl : d.late = false) :
-    ∃ bs d', bs.length ≤ 3 ∧ (∀ b ∈ bs, b = .wake .quit ∨ b = .lock ∨ b = .refreshDone) ∧
-      wrun d bs = some d' ∧ d'.f = .exited ∧ ∀ w, w < d.nextW → d'.released w := by
-  have inv := winv_run false as _ d (winv_init false) hr
-  exact drain false d inv hs (fun he => inv.noPend he (Or.inr hl))
+Before the fix commit for KF-C17-2 refreshNow() did not look at `stopped`: called after the flusher had returned it
+created a broadcaster nobody would ever stop and handed out a channel that was never written nor closed
+(`C17_old_refreshNow_strands_waiter`, regression theorem about the old definition `wrunOld`). -/
 
 open Pool C17Deb in
-/-- the same for the proposed repair of refreshNow (`if d.stopped { return a closed channel }`), for ALL schedules -/
-theorem C17_waiters_released_fixed (as : List WAct) (d : WDeb) (hr : wrunG true WDeb.init as = some d)
+/-- **every refreshNow() waiter is released** (FULL: all schedules): in every state reachable under any schedule
+    (0.. waiters queued before / while a refresh runs, stop at any point, refreshNow before, while and after the flusher
+    returns, the select taking any ready case), once `stopped` is set the flusher has at most three steps of its own
+    left (refreshFn returns; the select takes the closed quit channel; the critical section) after which it has exited
+    and EVERY waiter ever handed a channel is released -/
+theorem C17_waiters_released (as : List WAct) (d : WDeb) (hr : wrun WDeb.init as = some d)
     (hs : d.stopped = true) :
     ∃ bs d', bs.length ≤ 3 ∧ (∀ b ∈ bs, b = .wake .quit ∨ b = .lock ∨ b = .refreshDone) ∧
-      wrunG true d bs = some d' ∧ d'.f = .exited ∧ ∀ w, w < d.nextW → d'.released w := by
+      wrun d bs = some d' ∧ d'.f = .exited ∧ ∀ w, w < d.nextW → d'.released w := by
   have inv := winv_run true as _ d (winv_init true) hr
   exact drain true d inv hs (fun he => inv.noPend he (Or.inl rfl))
+
+open Pool C17Deb in
+/-- a refreshNow() on a stopped debouncer is released by the call itself (a closed channel), wherever the flusher is -/
+theorem C17_refreshNow_after_stop_released (d : WDeb) (hs : d.stopped = true) :
+    ∃ d', wstep d .refreshNow = some d' ∧ d'.nextW = d.nextW + 1 ∧ d'.released d.nextW ∧ d'.pend = d.pend := by
+  refine ⟨_, rfl, ?_, ?_, ?_⟩ <;> simp [wRefreshNow, hs, WDeb.released]
+
+open Pool C17Deb in
+/-- in every reachable state of the code that exists no listener is registered on a broadcaster the flusher can no
+    longer reach: once the flusher has returned, `d.broadcaster` is nil and stays nil -/
+theorem C17_no_broadcaster_after_exit (as : List WAct) (d : WDeb) (hr : wrun WDeb.init as = some d)
+    (he : d.f = .exited) : d.pend = none ∧ d.cur = none :=
+  have inv := winv_run true as _ d (winv_init true) hr
+  ⟨inv.noPend he (Or.inl rfl), inv.curRef (by rw [he]; decide)⟩
 
 open Pool C17Deb in
 /-- a released waiter stays released along every continuation (both variants of refreshNow) -/
@@ -456,26 +479,31 @@ example : ∃ d, Pool.wrun Pool.WDeb.init [.refreshNow, .wake .now, .lock, .refr
     d.served = [0] ∧ d.shut = [1] ∧ d.f = .exited := by
   refine ⟨_, rfl, ?_, ?_, ?_⟩ <;> decide
 
+/-- the code that exists on the schedule of KF-C17-2: stop(); the flusher returns; refreshNow() — waiter 0 holds a closed
+    channel at once -/
+example : ∃ d, Pool.wrun Pool.WDeb.init [.stop, .wake .quit, .lock, .refreshNow] = some d ∧ d.shut = [0] ∧ d.pend = none := by
+  refine ⟨_, rfl, ?_, ?_⟩ <;> decide
+
 open Pool in
-/-- counterexample to the full property on the code that exists: stop(); the flusher returns; refreshNow() — waiter 0
-    is never released, along EVERY continuation -/
-theorem C17_cex_waiter_after_exit :
-    ∃ d, wrun WDeb.init [.stop, .wake .quit, .lock, .refreshNow] = some d ∧ d.stopped = true ∧ d.f = .exited ∧
-      d.late = true ∧ 0 < d.nextW ∧ ∀ (bs : List WAct) (d' : WDeb), wrun d bs = some d' → ¬ d'.released 0 := by
+/-- regression (the code BEFORE the fix commit for KF-C17-2, `wrunOld`: refreshNow does not look at `stopped`): stop();
+    the flusher returns; refreshNow() — waiter 0 is never released, along EVERY continuation -/
+theorem C17_old_refreshNow_strands_waiter :
+    ∃ d, wrunOld WDeb.init [.stop, .wake .quit, .lock, .refreshNow] = some d ∧ d.stopped = true ∧ d.f = .exited ∧
+      d.late = true ∧ 0 < d.nextW ∧ ∀ (bs : List WAct) (d' : WDeb), wrunOld d bs = some d' → ¬ d'.released 0 := by
   refine ⟨_, rfl, by decide, by decide, by decide, by decide, ?_⟩
   have key : ∀ (bs : List WAct) (t t' : WDeb), t.f = .exited → 0 ∈ ls t.pend → 0 ∉ t.served → 0 ∉ t.shut →
-      wrun t bs = some t' → ¬ t'.released 0 := by
+      wrunOld t bs = some t' → ¬ t'.released 0 := by
     intro bs
     induction bs with
     | nil =>
       intro t t' _ _ h3 h4 hr
-      simp [wrun, wrunG] at hr; subst hr
+      simp [wrunOld, wrunG] at hr; subst hr
       intro h; rcases h with a | a
       · exact h3 a
       · exact h4 a
     | cons b bs ih =>
       intro t t' h1 h2 h3 h4 hr
-      simp only [wrun, wrunG] at hr
+      simp only [wrunOld, wrunG] at hr
       split at hr
       · rename_i t1 ht1
         have : t1.f = .exited ∧ 0 ∈ ls t1.pend ∧ 0 ∉ t1.served ∧ 0 ∉ t1.shut := by
@@ -510,43 +538,47 @@ theorem C17_quit_return_strands_waiter :
       d.stopped = true ∧ d.f = .exited ∧ d.late = false ∧ 1 < d.nextW ∧
       ∀ (bs : List WAct) (d' : WDeb), wrunQuitReturn d bs = some d' → ¬ d'.released 1 := by
   refine ⟨_, rfl, by decide, by decide, by decide, by decide, ?_⟩
-  have key : ∀ (bs : List WAct) (t t' : WDeb), t.f = .exited → 1 ∈ ls t.pend → 1 ∉ t.served → 1 ∉ t.shut →
+  have key : ∀ (bs : List WAct) (t t' : WDeb), t.f = .exited → 1 ∈ ls t.pend → 1 ∉ t.served → 1 ∉ t.shut → 1 < t.nextW →
       wrunQuitReturn t bs = some t' → ¬ t'.released 1 := by
     intro bs
     induction bs with
     | nil =>
-      intro t t' _ _ h3 h4 hr
+      intro t t' _ _ h3 h4 _ hr
       simp [wrunQuitReturn] at hr; subst hr
       intro h; rcases h with a | a
       · exact h3 a
       · exact h4 a
     | cons b bs ih =>
-      intro t t' h1 h2 h3 h4 hr
+      intro t t' h1 h2 h3 h4 h5 hr
       simp only [wrunQuitReturn] at hr
       split at hr
       · rename_i t1 ht1
-        have : t1.f = .exited ∧ 1 ∈ ls t1.pend ∧ 1 ∉ t1.served ∧ 1 ∉ t1.shut := by
+        have : t1.f = .exited ∧ 1 ∈ ls t1.pend ∧ 1 ∉ t1.served ∧ 1 ∉ t1.shut ∧ 1 < t1.nextW := by
           cases b with
           | refreshNow =>
-            simp only [wstepQuitReturn, wstep, wstepG, wRefreshNow, Bool.false_and, Bool.false_eq_true, if_false] at ht1
+            simp only [wstepQuitReturn, wstep, wstepG, wRefreshNow, Bool.true_and] at ht1
             injection ht1 with ht1; subst ht1
             split
-            · rename_i hp; simp [hp, ls] at h2
-            · rename_i l hp
-              simp only [hp, ls, Option.getD_some] at h2
-              exact ⟨h1, by simp [ls, h2], h3, h4⟩
+            · refine ⟨h1, h2, h3, ?_, by simp; omega⟩
+              simp only [List.mem_append, List.mem_singleton, not_or]
+              exact ⟨h4, by omega⟩
+            · split
+              · rename_i hp; simp [hp, ls] at h2
+              · rename_i l hp
+                simp only [hp, ls, Option.getD_some] at h2
+                exact ⟨h1, by simp [ls, h2], h3, h4, by simp; omega⟩
           | debounce =>
             simp only [wstepQuitReturn, wstep, wstepG] at ht1
-            split at ht1 <;> (injection ht1 with ht1; subst ht1; exact ⟨h1, h2, h3, h4⟩)
+            split at ht1 <;> (injection ht1 with ht1; subst ht1; exact ⟨h1, h2, h3, h4, h5⟩)
           | wake x => cases x <;> simp [wstepQuitReturn, wstep, wstepG, h1] at ht1
           | lock => simp [wstepQuitReturn, wstep, wstepG, h1] at ht1
           | refreshDone => simp [wstepQuitReturn, wstep, wstepG, h1] at ht1
           | stop =>
-            simp only [wstepQuitReturn, wstep, wstepG] at ht1; injection ht1 with ht1; subst ht1; exact ⟨h1, h2, h3, h4⟩
-        exact ih t1 t' this.1 this.2.1 this.2.2.1 this.2.2.2 hr
+            simp only [wstepQuitReturn, wstep, wstepG] at ht1; injection ht1 with ht1; subst ht1; exact ⟨h1, h2, h3, h4, h5⟩
+        exact ih t1 t' this.1 this.2.1 this.2.2.1 this.2.2.2.1 this.2.2.2.2 hr
       · simp at hr
   intro bs d' hr
-  exact key bs _ d' (by decide) (by decide) (by decide) (by decide) hr
+  exact key bs _ d' (by decide) (by decide) (by decide) (by decide) (by decide) hr
 
 end C17
 
@@ -580,6 +612,28 @@ theorem C17_one_pool_per_host (b : Bool) (as : List Act) (s : St) (hr : run (St.
   · have := inv.missLock (Or.inr ⟨j, c⟩); rw [a] at this; simp at this
   · have := inv.missLock (Or.inr ⟨i, a⟩); rw [c] at this; simp at this
   · rw [a] at c; injection c with c; injection c
+
+open Reg C17Reg in
+/-- **nothing is live once policyConnPool.Close has swept the map** (fix: commit for KF-C17-3), for all interleavings of
+    any number of addHost / removeHost / Close callers before, while and after: `closed` is never reset, no pool is
+    registered any more, and no pool object is open and uncommitted to be closed — in particular an addHost caller that
+    gets the mutex afterwards builds and fills nothing -/
+theorem C17_reg_nothing_live_after_close (b : Bool) (as : List Act) (s : St) (hr : run (St.init b) as = some s)
+    (hc : s.closed = true) :
+    s.reg = none ∧ (∀ i, ¬ s.live i) ∧ ∀ (bs : List Act) (s' : St), run s bs = some s' → s'.closed = true := by
+  have rc := rclosed_run as _ s (rclosed_init b) hr hc
+  refine ⟨rc.1, ?_, ?_⟩
+  · intro i hl
+    rcases C17_no_orphan_pool b as s hr i hl with a | a
+    · rw [rc.1] at a; simp at a
+    · exact rc.2.2.1 i a
+  · intro bs s' h; exact closed_run bs s s' h hc
+
+/-- non-vacuity: Close, then two addHost callers — both find `closed` under the mutex and leave; nothing is built -/
+example : ∃ s, Reg.run (Reg.St.init true)
+    [.callClose, .clLock, .clSweep, .clUnlock, .callAdd, .callAdd, .addLock, .addLookup, .addUnlock, .addLock, .addLookup,
+     .addUnlock] = some s ∧ s.closed = true ∧ s.pools = [true] ∧ s.reg = none ∧ s.toFill = [] ∧ s.filled = [] := by
+  refine ⟨_, rfl, ?_, ?_, ?_, ?_, ?_⟩ <;> decide
 
 /-- non-vacuity: two addHost callers for a host without a pool, interleaved as far as the mutex allows; one pool -/
 example : ∃ s, Reg.run (Reg.St.init false)
